@@ -10,7 +10,9 @@
    Domain flags of the final state: x_rb = a fault hit the ROLLBACK TO of a failing nested block
    (outside the property: the database refused to undo); x_drop = the dialector dropped a
    save-point error (breaks gorm's SavePointerDialectorInterface contract; never set when
-   c_report C = true).  The model follows /repo after fix 1c49b86 (the nested branch calls
+   c_report C = true).  c_nosp C = false: the dialector implements save points (with one that does
+   not, SavePoint / RollbackTo answer ErrUnsupportedDriver: modelled, tied by the correspondence,
+   outside these theorems).  The model follows /repo after fix 1c49b86 (the nested branch calls
    SavePoint / RollbackTo on db.Session(&Session{}), so their errors no longer stick to the
    enclosing handle); before it the result/usability theorem needed an extra hypothesis. *)
 From Verif Require Import Base C04_Model C04_Check C04_Proofs C04_Proofs2 C04_Proofs3 C04_Proofs4 C04_Proofs5 C04_Proofs6.
@@ -24,7 +26,8 @@ Open Scope Z_scope.
 Theorem c04_atomic : forall E,
   (forall n t, sq_save E n t = ref_save n t) ->
   (forall n t, sq_rbto E n t = ref_rbto n t) ->
-  forall C fault manual p extra db0 o x s,
+  forall C, c_nosp C = false ->
+  forall fault manual p extra db0 o x s,
   run_top E C fault manual p extra (init_st db0) = (o, x, s) ->
   scoped [] p = true -> x_rb (s_fl s) = false -> x_drop (s_fl s) = false ->
   s_db s = spec_final (negb (c_nonest C)) o (rev (s_ops s)) db0.
@@ -39,7 +42,8 @@ Print Assumptions c04_atomic.
 Theorem c04_result_usable : forall E,
   (forall n t, sq_save E n t = ref_save n t) ->
   (forall n t, sq_rbto E n t = ref_rbto n t) ->
-  forall C fault manual p extra db0 o x s,
+  forall C, c_nosp C = false ->
+  forall fault manual p extra db0 o x s,
   run_top E C fault manual p extra (init_st db0) = (o, x, s) ->
   scoped [] p = true -> x_rb (s_fl s) = false -> x_drop (s_fl s) = false ->
   top_ok o (rev (s_ops s)) = true /\ usable o (rev (s_ops s)) = true.
@@ -71,7 +75,8 @@ Theorem c04_spec_holds : forall E,
   (forall n t, sq_save E n t = ref_save n t) ->
   (forall n t, sq_rbto E n t = ref_rbto n t) ->
   (forall l, bal false l = true -> pool E l = (0, 0)) ->
-  forall C fault manual p extra o x s,
+  forall C, c_nosp C = false ->
+  forall fault manual p extra o x s,
   run_top E C fault manual p extra (init_st []) = (o, x, s) ->
   scoped [] p = true ->
   x_rb (s_fl s) = false -> x_drop (s_fl s) = false ->
@@ -95,7 +100,8 @@ Print Assumptions c04_propagation.
 Theorem c04_nested_isolated : forall E,
   (forall n t, sq_save E n t = ref_save n t) ->
   (forall n t, sq_rbto E n t = ref_rbto n t) ->
-  forall C fault b h s r o h1 s1 t stk,
+  forall C, c_nosp C = false ->
+  forall fault b h s r o h1 s1 t stk,
   c_nonest C = false -> scoped [] b = true ->
   nested E C fault (run_body E C fault b) h s = (r, o, h1, s1) ->
   s_tx s = Some (mkTx t stk) -> gen_ok (s_gen s) stk ->
